@@ -1,6 +1,6 @@
 """C14 - single-asset deposit = swap-half-then-deposit, atomic, no residue (structural part)."""
 import re
-from rules.common import (PredTrue, PredFalse, TryOk, EQ, VariantEdge, where, flat_atoms, all_origins, exact_origins, ops_of,
+from rules.common import (opmap, PredTrue, PredFalse, TryOk, EQ, VariantEdge, where, flat_atoms, all_origins, exact_origins, ops_of,
                           show, origin_match, eq_test, pred_test, effects_signature)
 from base import CutPolicy
 from absint import EMPTY, vfield, tagvals, const_of
@@ -79,7 +79,7 @@ def run(W, chk):
         chk.expect(ro == {"info.sender", "msg.ProvideLiquidity.receiver"}, "AGREE-buffer", "receiver", "receiver = validated-or-default(receiver, sender)",
                    "buffer.receiver <- %s" % sorted(ro), where(e))
         half = vfield(vfield(v, "offer_asset_half"), "amount")
-        hm = {o: ops for (o, ops) in flat_atoms(half) if not o.startswith("Const(")}
+        hm = opmap(half, lambda o, ops: not o.startswith("Const("))
         chk.expect(hm == {"info.funds[*].amount": frozenset(["div_floor", "div:l"])}, "AGREE-buffer", "offer_asset_half", "the half kept = the half swapped",
                    "offer_asset_half <- %s" % {k: sorted(v) for k, v in hm.items()}, where(e))
         ea = vfield(v, "expected_ask_asset")
